@@ -11,7 +11,7 @@ from pathlib import Path
 
 ROOT = Path(__file__).resolve().parent.parent
 # seeded changes whose clause is decided by the check of a neighbouring property (tried when the own check stays quiet)
-ALSO = {"C14-D": ["C15"], "C07-D": ["C02"]}
+ALSO = {"C14-D": ["C15"], "C07-D": ["C02"], "C01-E": ["C05"], "C07-F": ["C03"]}
 
 
 def sh(*cmd: str, timeout: int = 1800) -> subprocess.CompletedProcess:
